@@ -3,20 +3,21 @@ from collections import Counter
 
 import numpy as np
 
-from .. import sx, gen, lib, meaning as M, monitors, minimise, gateset, refexec
+from .. import sx, gen, lib, meaning as M, monitors, minimise, gateset, refexec, apiroute
 from .common import prog_features, sig, case_prog
 from . import execcommon as X
 
 RULE = ("executable programs over the harness native gate set (1-,2-,3-qubit, symmetric and asymmetric, parametrised and "
         "fixed, idle and unitary-less gates) on registers of size 1-6 (thorough: up to 8), qubits reached directly, through "
         "alias chains and through macro parameters, arguments from lets (declared and overridden), loops (0,1,n), macros "
-        "calling macros, parallel blocks; plus basis-state probes (X-only programs through aliases). Oracle = independent "
+        "calling macros, parallel blocks; a quarter of the circuits are re-assembled from core objects with every gate "
+        "statement made by a keyword call in random keyword order; plus basis-state probes (X-only programs through aliases). Oracle = independent "
         "tensor-contraction simulator on the reference meaning of the input IR. non-trivial = at least one subcircuit with "
         "a gate that has a unitary; distinct = S-expression + overrides")
 ASSUMPTIONS = ["harness native gate set and its matrices (vf/gateset_sig.py)", "reference executor vf/refexec.py",
                "programs rejected by the emulator with JaqalError are judged by C12/C13/C14, not here"]
 TIERS = {"quick": {"shards": 8, "budget_s": 50}, "thorough": {"shards": 16, "budget_s": 420}}
-REQUIRE = {"gate-set-variant:B": 100, "gate-set-variant:A": 100, "states-compared": 300, "gate:2q-asym": 50, "gate:3q": 20, "via-alias": 100, "via-macro": 50, "override-used": 30,
+REQUIRE = {"keyword-calls-in-another-order": 500, "gate-set-variant:B": 100, "gate-set-variant:A": 100, "states-compared": 300, "gate:2q-asym": 50, "gate:3q": 20, "via-alias": 100, "via-macro": 50, "override-used": 30,
            "loop-in-section": 30, "probe:basis": 50}
 ATOL = 1e-9
 
@@ -40,8 +41,15 @@ def judge(case):
     if scan["trailing_gates"]:
         return "skipped:trailing-gates", [], None
     subs = scan["subs"]
-    o = X.run(s, ov, seed=case.get("npseed", 1))
     info = {"subs": len(subs), "n": s.n}
+    if case.get("api") is not None:
+        # the same circuit re-assembled from core objects, gate statements made by keyword calls in random order
+        oa = lib.outcome(apiroute.rebuild_with_keyword_calls, s.c, case["api"])
+        if oa[0] != "ok":
+            return "ok", [("api-rebuild-failed:" + oa[1], {"error": oa[2]})], info
+        s.c, st_api = oa[1]
+        info["api"] = st_api
+    o = X.run(s, ov, seed=case.get("npseed", 1))
     if o[0] == "budget":
         return "skipped:step-budget", [], info
     if o[0] == "jaqal":
@@ -139,6 +147,9 @@ def process(ctx, case, seen):
     rec.count("unitary-evaluations-observed", info.get("events", 0))
     rec.count("n=%d" % info["n"])
     rec.count("gate-set-variant:" + case.get("variant", "A"))
+    if info.get("api"):
+        rec.count("circuits-reassembled-from-core-objects")
+        rec.count("keyword-calls-in-another-order", info["api"]["reordered"])
     feature_counts(rec, prog)
     if case.get("ov"):
         rec.count("override-used")
@@ -152,12 +163,16 @@ def process(ctx, case, seen):
             rec.count("unminimised-repeat:" + clause)
             continue
         base = {k: v for k, v in case.items() if k != "prog"}
+        if "api" in base and clause in _clauses(dict({k: v for k, v in base.items() if k != "api"}, prog=prog)):
+            base.pop("api")  # fails for the parsed circuit as well: report the simpler case
         small = minimise.minimise(prog, lambda p: clause in _clauses(dict(base, prog=p)), budget=200)
         small_case = dict(base, prog=small)
         d2 = [x for x in judge(small_case)[1] if x[0] == clause]
         feats = prog_features(small)
         if small_case.get("ov"):
             feats.add("override")
+        if "api" in small_case:
+            feats.add("statements-made-by-keyword-calls")
         rec.violation(sig("C03", clause, feats), d2[0][1] if d2 else detail, small_case)
 
 
@@ -204,6 +219,8 @@ def shard(ctx):
                     case["ov"] = ov
         case["npseed"] = rng.randrange(1 << 30)
         case["variant"] = "B" if rng.random() < 0.35 else "A"
+        if rng.random() < 0.25:
+            case["api"] = rng.randrange(1 << 30)
         process(ctx, case, seen)
         if i <= 3:
             rec.sample({"ov": case.get("ov"), "text": sx.to_text(case["prog"])})
